@@ -50,6 +50,26 @@ PROPS = {
                       "driven with the same chunkings, single and concurrent, compared write by write.",
         "level_note": "Trusted: Lean kernel; atomicity of a single Write on the shared stream; harness sink and canonicalisation.",
     },
+    "C20": {
+        "lean": "Props.C20",
+        "domains": [{"name": "remote", "timeout": 3000}],
+        "cli": True,
+        "trusted": ["the harness's loopback HTTP server, pseudo-terminal and cache-file normalisation (harness/remote.go); "
+                    "SHA-256 collision resistance turns 'approved checksum' into 'approved content' (sha is uninterpreted in the model); "
+                    "the TLS handshake, redirects and git nodes are not exercised"],
+        "assumptions": ["one remote Taskfile per invocation (root entrypoint or a single include), http(s) nodes only",
+                        "no crash between the three cache writes, cache files changed by Task only (plus ageing of timestamps by the harness)",
+                        "the wall clock is monotone and an invocation takes less than the 1h expiry used"],
+        "level_text": "Theorems (all histories of invocations x server states x answers, any checksum function): content is handed on for "
+                      "execution only with the approved checksum; the approved checksum changes only under --yes or an accepted prompt in "
+                      "the same invocation; unapproved new/changed content = 104, nothing run, cache untouched; http without --insecure = 105 "
+                      "before any cache or network access; --offline and any failed fetch (refused, HTTP error, timeout) run the approved "
+                      "cached copy (repaired rule, fix F16; the rule as written is shown not to). Tie: regenerated control skeletons of "
+                      "readRemoteNodeContent and 11 neighbouring functions must equal the ones the model mirrors; the real binary is run "
+                      "against a loopback server over generated sequences and must equal Remote.invoke step by step (exit code, version run, "
+                      "cache files), with a direct trust monitor.",
+        "level_note": "Trusted: Lean kernel; harness server/pty/normalisation; extractor. Not modelled: git nodes, TLS, redirects, crash between cache writes.",
+    },
 }
 
 
